@@ -71,6 +71,7 @@ ORACLE = [
     ("instances_energy", ["InfraHardware"], [
         ("Server", "energy_footprint", 1), ("Storage", "energy_footprint", 1), ("GPUServer", "energy_footprint", 1)]),
     ("devices_energy", ["UsagePattern"], [("UsagePattern", "devices_energy_footprint", 1)]),
+    ("data_replication_factor", ["Storage"], [("Storage", "carbon_footprint_fabrication", "indep")]),
     ("nb_of_instances", ["InfraHardware"], [
         ("Server", "instances_fabrication_footprint", 1), ("Storage", "instances_fabrication_footprint", 1)]),
 ]
